@@ -41,6 +41,38 @@ def value_faults(ctx, L, ex):
         judge_c08(ctx, L, case.type, case.cc, case.enc, faults.patch(L, case, fm), f"value:{sorted(fm.items())}", value_only=True)
 
 
+def repeated_faults(ctx, L, ex):
+    """The same faulty exchange two to four times in one stream (a polling application repeats itself): every occurrence
+    gets its own warning."""
+    case, data = ex
+    fm = data.draw(faults.value_faults(L, case, max_faults=1))
+    if not fm:
+        return
+    bad = faults.patch(L, case, fm)
+    n = data.draw(st.integers(2, 4))
+    judge_c08(ctx, L, "CommandResponseStream", None, False, bad * n, f"repeated:{n}x:{sorted(fm.items())}", value_only=True)
+
+
+def many_warnings(ctx, L):
+    """More warnings in one decode than any plausible cap: lists of 1100 and 2600 elements that are all out of range."""
+    from ..gen import Case
+
+    k = 0
+    for tname, cname, lname, etype in (("TPML_ALG", "count", "algorithms", "TPM_ALG_ID"), ("TPML_CC", "count", "commandCodes", "TPM_CC"), ("TPML_HANDLE", "count", "handle", "TPM_HANDLE")):
+        if tname not in L.snap["structs"] or L.struct(tname)["fields"] != [[cname, "UINT32"], [lname, f"list[{etype}]"]]:
+            continue
+        outs = L.outside_values(etype)
+        for n in (1100, 2600):
+            k += 1
+            if k % ctx.nshards != ctx.shard or not outs:
+                continue
+            toks = [["", tname, "..."], [f".{cname}", "UINT32", n], [f".{lname}", f"list[{etype}]", "..."]] + [[f".{lname}[{i}]", etype, outs[i % len(outs)]] for i in range(n)]
+            data = b"".join(int(v).to_bytes(L.width(t), "big", signed=L.signed(t)) for p, t, v in toks if v != "...")
+            ctx.count("many-warnings-cases")
+            if not judge_c08(ctx, L, tname, None, False, data, f"many-warnings:{n}", value_only=True):
+                return
+
+
 def synthetic_part(ctx, max_len):
     LS = synthetic.extended_layout(layout())
     for t in synthetic.TOP_TYPES:
@@ -59,6 +91,8 @@ def run_shard(ctx):
     ctx.run_plain(lambda: primitive_sweep(ctx, L, lambda t, data, ok: judge_c08(ctx, L, t, None, False, data, "primitive-sweep", value_only=not ok)), "primitive-sweep")
     ctx.run_given(gen.messages(L), lambda c: size_faults(ctx, L, c), ctx.share(300 if q else 6000), name="size-faults")
     ctx.run_given(st.tuples(gen.messages(L), st.data()), lambda ex: value_faults(ctx, L, ex), ctx.share(2500 if q else 40000), name="value-faults")
+    ctx.run_given(st.tuples(gen.streams(L, max_pairs=1, lone_tail=False, rare=False), st.data()), lambda ex: repeated_faults(ctx, L, ex), ctx.share(300 if q else 5000), name="repeated-faults")
+    ctx.run_plain(lambda: many_warnings(ctx, L), "many-warnings")
     ctx.run_given(arb.faulted_input(L), lambda x: judge_c08(ctx, L, x[0], x[1], x[2], x[3], x[4]), ctx.share(8000 if q else 150000), name="faulted")
     ctx.run_given(arb.arbitrary_input(L), lambda x: judge_c08(ctx, L, x[0], x[1], x[2], x[3], x[4]), ctx.share(5000 if q else 100000), name="arbitrary")
 
